@@ -210,5 +210,74 @@ def serve():
         sys.stdout.flush()
 
 
+# ------------------------------- syscall audit ------------------------------- #
+
+# what the interposer (crash_shim.c) sees, as kernel syscall names
+INTERCEPTED = {"open", "openat", "creat", "write", "pwrite64", "writev", "rename", "renameat", "renameat2", "link", "mkdir", "mkdirat",
+               "unlink", "unlinkat", "fsync", "fdatasync", "ftruncate", "close"}
+# every syscall that can change the content or the namespace of a file
+MUTATING = ["open", "openat", "creat", "write", "pwrite64", "writev", "pwritev", "pwritev2", "sendfile", "copy_file_range", "splice",
+            "rename", "renameat", "renameat2", "unlink", "unlinkat", "mkdir", "mkdirat", "link", "linkat", "symlink", "symlinkat",
+            "truncate", "ftruncate", "fallocate", "fsync", "fdatasync"]
+
+
+def strace_audit(spec, cache, timeout=180):
+    """Run the writer ``spec`` in a FRESH interpreter WITHOUT the interposer under strace and return
+    {"calls": {syscall: count} touching ``cache``, "bytes": bytes written into files under it,
+     "unintercepted": [names the interposer would not have seen]} or {"error": ...}.
+    An independent witness (the kernel interface) for what the crash enumeration is built on."""
+    import re
+    import shutil
+    import tempfile
+
+    if not shutil.which("strace"):
+        return {"error": "strace not installed"}
+    env = dict(os.environ)
+    env.pop("LD_PRELOAD", None)
+    out = tempfile.mktemp(prefix="vf-strace-", dir="/var/tmp")
+    cmd = ["strace", "-f", "-y", "-qq", "-s", "0", "-o", out, "-e", "trace=" + ",".join(MUTATING), sys.executable, "-m", "vf.crash", "--oneshot", json.dumps(spec)]
+    try:
+        p = subprocess.run(cmd, cwd=VERIF, env=env, capture_output=True, text=True, timeout=timeout)
+        if p.returncode != 0:
+            return {"error": f"traced writer exited {p.returncode}: {p.stderr[-300:]}"}
+        calls, nbytes = {}, 0
+        pat = re.compile(r"^\d+\s+(\w+)\((.*)\)\s+=\s+(-?\d+)")
+        for line in open(out, errors="replace"):
+            m = pat.match(line)
+            if not m or cache not in line:
+                continue
+            name, args, ret = m.group(1), m.group(2), int(m.group(3))
+            if ret < 0:
+                continue
+            if name in ("open", "openat", "creat") and not re.search(r"O_WRONLY|O_RDWR|O_CREAT|O_TRUNC|O_APPEND", args) and name != "creat":
+                continue  # read-only open
+            # for the data-moving calls the TARGET must be under the cache (first fd argument)
+            if name in ("write", "pwrite64", "writev", "pwritev", "pwritev2", "sendfile", "copy_file_range", "splice", "ftruncate", "fallocate", "fsync", "fdatasync"):
+                first = args.split(",")[0]
+                if name in ("copy_file_range", "splice"):
+                    # (fd_in, off_in, fd_out, ...): the third argument is the target
+                    parts = args.split(",")
+                    first = parts[2] if len(parts) > 2 else first
+                if cache not in first:
+                    continue
+                if name in ("write", "pwrite64", "writev", "pwritev", "pwritev2", "sendfile", "copy_file_range", "splice"):
+                    nbytes += ret
+            calls[name] = calls.get(name, 0) + 1
+        return {"calls": calls, "bytes": nbytes, "unintercepted": sorted(n for n in calls if n not in INTERCEPTED)}
+    except subprocess.TimeoutExpired:
+        return {"error": "strace run timed out"}
+    finally:
+        try:
+            os.remove(out)
+        except OSError:
+            pass
+
+
 if __name__ == "__main__":
-    serve()
+    if len(sys.argv) > 2 and sys.argv[1] == "--oneshot":
+        import warnings
+
+        warnings.filterwarnings("ignore")
+        do_write(json.loads(sys.argv[2]))
+    else:
+        serve()
